@@ -4,6 +4,7 @@ import pool
 import pool2
 
 META = {
+    "thorough_extra": ["mocks", "client-only"],
     "level": "other",
     "explanation": "Mechanisms of reuse and de-duplication, decided on all paths: (P8) Pool::checkout consults the idle list first, builds exactly three kinds of checkout "
                    "(idle hit: popped connection, no connector; in-flight attempt: no connector; otherwise: own connector, only on contains()==false), and sets the "
@@ -54,10 +55,10 @@ def C04_1(ctx, facts):
 
 RULES = [
     ("P8", pool2.P8, ["default"]),
-    ("P9", pool2.P9, ["default"]),
-    ("P2", pool.P2, ["default"]),
-    ("P3", pool.P3, ["default"]),
-    ("P10", pool2.P10, ["default"]),
+    ("P9", pool2.P9_aspects("waiters-first", "delivered-or-drained", "payload", "queue-kept"), ["default"]),
+    ("P2", pool.P2_aspects("callers", "conn"), ["default"]),
+    ("P3", pool.P3_route, ["default"]),
+    ("P10", pool2.P10_aspects("sites", "pure-waiter"), ["default"]),
     ("P15", pool2.P15, ["default"]),
     ("C04.1", C04_1, ["default"]),
 ]
